@@ -69,7 +69,9 @@ func (d *Decl) HasSelectedInputs() bool { return d.Event != nil && len(d.Event.S
 // selected event inputs -> log indexing, else transaction indexing.
 func (d *Decl) Kind() string {
 	for _, b := range d.Block {
-		if strings.HasPrefix(b.Column, "trace_") {
+		// (a trace field under any column name: shovel adds the trace_action_idx column itself;
+		// a column named trace_* switches dig to trace indexing whatever field it holds)
+		if strings.HasPrefix(b.Name, "trace_") || strings.HasPrefix(b.Column, "trace_") {
 			return "trace"
 		}
 	}
